@@ -389,6 +389,7 @@ pub fn run_worker(prop: &dyn Property, a: WorkerArgs) -> i32 {
         let mut runner = TestRunner::new_with_rng(config, rng);
         let strat = proptest::collection::vec(proptest::num::u32::ANY, 0..=plan.tape_len);
         // generate-and-run loop by hand so that journal, skip and counting are under our control
+        let keep_going = std::env::var("VERIF_KEEP_GOING").is_ok();
         let mut failed: Option<(Vec<u32>, Exec)> = None;
         let mut failed_tree = None;
         for _ in 0..plan.cases_per_shard {
@@ -412,6 +413,12 @@ pub fn run_worker(prop: &dyn Property, a: WorkerArgs) -> i32 {
                     if prop.tolerated_signature(&ex.signature, &ctx) {
                         *acc.tolerated.entry(ex.signature.clone()).or_insert(0) += 1;
                         acc.record(&case, &ex, want_samples);
+                    } else if keep_going {
+                        // triage mode (VERIF_KEEP_GOING=1): record unshrunk failures and continue
+                        acc.record(&case, &ex, want_samples);
+                        if acc.violations.len() < 60 {
+                            acc.violations.push(violation_json(prop, &case, &ex, Some(&tape_vec), a.seed, a.shard));
+                        }
                     } else {
                         acc.record(&case, &ex, want_samples);
                         failed = Some((tape_vec, ex));
